@@ -47,6 +47,26 @@ meta('C19', 'other', 'symbolic execution of rustc MIR (mirsym) + z3 (String theo
      assumptions=['redis::Client::open / ClusterClientBuilder / SentinelClient::build are models that record their arguments and succeed or fail arbitrarily'])
 
 
+SYNC_ASSUME = ['tokio::task::spawn_blocking: a queue of tasks each run atomically on a blocking thread in any order; dropping the JoinHandle does not cancel; panics are caught and returned through the handle',
+               'std Mutex poisoning as documented; Arc counts', 'user closures and backend callbacks do what the scenario scripts (ok / panic; healthy / broken / invalid / wrong echo)']
+meta('C14', 'model_checking', TECH, outside='overlap of two blocking tasks (excluded by the wrapper mutex; tasks are atomic in the model); more than 3 interacts; async-std',
+     assumptions=SYNC_ASSUME)
+meta('C15', 'model_checking', TECH + '; compositional with C04 (a failing recycle discards and replaces) and C14 (a panic poisons)',
+     outside='the backends themselves (rusqlite, r2d2 managers, diesel are models answering as scripted); pools of more than one connection are covered by C04; '
+             'a cancelled closure that panics after recycle() ran its check is indistinguishable from a panic after the hand-out and is not counted',
+     assumptions=SYNC_ASSUME)
+
+
+meta('C17', 'other', 'symbolic execution of rustc MIR (mirsym) + z3: per-path obligations, ping counter and server reply symbolic',
+     explanation='Manager::recycle of deadpool-redis (standalone, sentinel, cluster) is executed from MIR on a model of redis::Pipeline / Cmd that records the commands and answers '
+                 'with an arbitrary string, an error, or never (the recycle is then abandoned at its await). The ping counter is a symbolic 64-bit value and its decimal rendering an '
+                 'uninterpreted injective function. Obligations: the standalone manager sends exactly UNWATCH (ignored) + PING <n>; Ok is returned iff the reply equals the value sent; '
+                 'over histories of 2-3 recycles with any outcome of the earlier ones the values sent are pairwise different. Composition: a rejected connection is discarded and replaced '
+                 '(C04), Connection::take is Object::take (C09).',
+     outside='the wire protocol and the redis crate (modelled at the level of the commands handed to query_async); WATCH state on the server (UNWATCH is checked to be sent)',
+     assumptions=['redis::Pipeline / Cmd are command-list builders; query_async hands the list to the server and yields its reply', 'usize::to_string is injective'])
+
+
 def mfam(name, oracles, depth, **kw):
     cfg = {'oracles': tuple(oracles), 'depth': depth}
     cfg.update(kw)
@@ -80,6 +100,10 @@ def jobs_for(pid, tier, seed):
         J.append(mfam('2 tasks, 3 hooks ok/err/panic', ['C02'], 4 if q else 6, tasks=2, hooks=H3, env={'create': OE, 'recycle': OE, 'hook': ('ok', 'err', 'panic')}))
         J.append(mfam('2 tasks, per-call timeouts', ['C02'], 4 if q else 6, tasks=2, env={'create': OEP, 'recycle': OEP},
                       timeout_variants=[None, ('pos', 'pos', 'pos'), ('zero', None, None)]))
+        J.append(mfam('thread level: take / return / get racing on a full pool (3 threads)', ['C02'], 16 if q else 20, tasks=3, env={'create': ('ok',), 'recycle': ('ok',)},
+                      thread_mode=True, prefix=(('get', 'T1', 0), ('get', 'T3', 0)), cancel=False, lifo=False, max_gets=1, max_size_concrete=2))
+        J.append(mfam('thread level: failing get / return racing (2 threads)', ['C02'], 14 if q else 18, tasks=2, env={'create': ('ok', 'err'), 'recycle': ('ok', 'err')},
+                      thread_mode=True, prefix=(('get', 'T1', 0),), cancel=False, take=False, lifo=False, max_gets=2))
     elif pid == 'C03':
         E = {'create': ALLO, 'recycle': ALLO, 'hook': ALLO}
         J.append(mfam('1 task, 3 hooks (sync/async/sync), every outcome, cancel at every await', ['C03'], 6 if q else 9, tasks=1, hooks=H3, env=E, take=False, probe=False))
@@ -151,6 +175,25 @@ def jobs_for(pid, tier, seed):
         J.append(ufam('thread level: add / try_add racing close', ['C12'], 12 if q else 16, tasks=2, thread_mode=True, get_variants=['try_get'], add_variants=['try_add', 'add'], max_adds=2, ctl=('close',), cancel=False, take=False, max_gets=0))
         J.append(ufam('thread level: return / take racing close', ['C12'], 12 if q else 16, tasks=2, thread_mode=True, ctor='from_vec', initial=2, prefix=(('uget', 'T1', 0), ('uget', 'T2', 0)),
                       get_variants=['try_get'], add_variants=['try_add'], max_adds=0, ctl=('close',), cancel=False))
+    elif pid == 'C14':
+        C = ['deadpool_runtime', 'deadpool_sync']
+        J.append({'name': 'one wrapper: up to 3 interacts (ok / panic), cancel, drop at any time, any blocking-pool order', 'kind': 'sync_bse',
+                  'cfg': {'max_interacts': 3, 'depth': 14 if q else 18}, 'crates': C})
+        J.append({'name': 'creation closure fails', 'kind': 'sync_bse', 'cfg': {'create': 'err', 'max_interacts': 0, 'depth': 4}, 'crates': C})
+    elif pid == 'C15':
+        for mgr, crate in (('sqlite', 'deadpool_sqlite'), ('r2d2', 'deadpool_r2d2'), ('diesel', 'deadpool_diesel')):
+            C = ['deadpool', 'deadpool_runtime', 'deadpool_sync', crate]
+            backends = {'sqlite': [{}, {'query_row': 'wrong'}, {'query_row': 'err'}],
+                        'r2d2': [{}, {'has_broken': True}, {'is_valid': 'err'}, {'has_broken': True, 'is_valid': 'err'}],
+                        'diesel': [{}, {'broken_tx': True}, {'execute': 'err'}, {'custom': 'err'}]}[mgr]
+            methods = ['Fast', 'Verified', 'CustomQuery', 'CustomFunction'] if mgr == 'diesel' else ['-']
+            for pre in ((), ('interact_ok',), ('interact_panic',), ('cancelled_panic_queued',), ('cancelled_ok_queued',), ('interact_ok', 'cancelled_panic_queued')):
+                for b in backends:
+                    for meth in methods:
+                        J.append({'name': f'{mgr} recycle: history {list(pre) or "fresh"}, backend {b or "healthy"}' + (f', method {meth}' if mgr == 'diesel' else ''),
+                                  'kind': 'recycle_bse', 'cfg': {'manager': mgr, 'prefix': pre, 'backend': b, 'method': meth if mgr == 'diesel' else 'Fast', 'depth': 10}, 'crates': C})
+    elif pid == 'C17':
+        J.append({'name': 'recycle() of the standalone, sentinel and cluster managers: commands sent, echo check, freshness over 2-3 recycles', 'kind': 'redisrecycle', 'cfg': {}, 'crates': ['deadpool', 'deadpool_redis']})
     elif pid == 'C19':
         J.append({'name': 'redis / cluster / sentinel builder(), Default impls and From conversions', 'kind': 'redisconfig', 'cfg': {}, 'crates': ['deadpool', 'deadpool_redis']})
     elif pid == 'C18':
@@ -215,6 +258,26 @@ def run(job):
                        'mode': 'thread' if B.cfg['thread_mode'] else 'task', 'time_budget_s': job['budget']},
             'summary': f'{R.states} states, {R.transitions} transitions, depth {R.max_depth}{"" if R.complete else " (budget reached)"}, {len(vios)} violation(s)',
         }
+    if job['kind'] in ('sync_bse', 'recycle_bse'):
+        from . import w_sync
+        cfg = job['cfg']
+        B = w_sync.SyncBSE(prog, cfg) if job['kind'] == 'sync_bse' else w_sync.RecycleBSE(prog, cfg)
+        init = B.init_states()
+        R = explore.bfs(B, init, B.cfg['depth'], time_budget=job['budget'], seed=job['seed'], stop_on_violation=False)
+        S = B.M.stats; vios = []
+        for v, st in R.violations:
+            d = dict(v); d['trace'] = [list(map(str, e)) for e in st.log if e[0] in ('init', 'act')]; d['family'] = job['name']
+            d['cfg'] = _jsonable(cfg); d['crates'] = job['crates']; d['kind'] = 'sync'
+            vios.append(d)
+        return {'states': R.states, 'transitions': R.transitions, 'merged': R.merged, 'max_depth': R.max_depth, 'complete': R.complete and not R.truncated,
+                'truncated': R.truncated, 'violations': vios, 'samples': R.samples[:2],
+                'queries': S.queries, 'sat': S.sat, 'unsat': S.unsat, 'solver_s': round(S.solver_s, 3), 'cache_hits': S.cache_hits, 'blocks': S.blocks,
+                'functions': dict(S.fns), 'models': dict(S.models), 'dump_s': prog.dump_s,
+                'bounds': {'depth': B.cfg['depth'], 'interacts': B.cfg.get('max_interacts'), 'blocking_pool': 'tasks run atomically in any order', **{k: _jsonable(v) for k, v in cfg.items() if k in ('manager', 'prefix', 'backend', 'method')}},
+                'summary': f'{R.states} states, {R.transitions} transitions, depth {R.max_depth}, {len(vios)} violation(s)'}
+    if job['kind'] == 'redisrecycle':
+        from . import w_redis
+        return w_redis.run_c17(prog, job)
     if job['kind'] == 'redisconfig':
         from . import w_redisconfig
         return w_redisconfig.run_c19(prog, job)
